@@ -185,6 +185,22 @@ func H_c10_options() {
 			tail = tail[1:] // an HTML block placeholder carries its own newline; the raw lines bring theirs
 		}
 		vp.Assert(len(b) >= len(tail) && vp.EqBytes(tail, b[len(b)-len(tail):]), "Unsafe changes output after the last raw-HTML/URL fragment")
+		// a single emptied URL: what stands in its place with Unsafe is exactly that one attribute with the URL
+		// (quotes inside a URL are written &quot;), nothing else - a title or another attribute behind it is the same in both
+		if first == last && a[first] != '<' && len(b) >= first+len(tail) {
+			mid := b[first : len(b)-len(tail)]
+			attr := "href=\""
+			if a[first] == 's' {
+				attr = "src=\""
+			}
+			okMid := len(mid) > len(attr) && vp.EqBytes(mid[:len(attr)], []byte(attr)) && mid[len(mid)-1] == '"'
+			vp.Assert(okMid, "Unsafe changes more than the emptied URL of the link/image")
+			if okMid {
+				for i := len(attr); i < len(mid)-1; i++ {
+					vp.Assert(mid[i] != '"', "Unsafe changes more than the emptied URL of the link/image")
+				}
+			}
+		}
 		vp.Reach("unsafe-fragments")
 	}
 	vp.Reach("done")
